@@ -861,12 +861,18 @@ func Diff(a, b *Node, o Options) string {
 	if EqualOpt(a, b, o) {
 		return ""
 	}
-	return diff(a, b, o, "$", 0)
+	return diff(a, b, o, "$", 0, map[[2]*Node]bool{})
 }
 
-func diff(a, b *Node, o Options, path string, depth int) string {
-	if depth > 40 {
+func diff(a, b *Node, o Options, path string, depth int, visited map[[2]*Node]bool) string {
+	if depth > 60 {
 		return path + ": (too deep)"
+	}
+	if a != nil && b != nil {
+		if visited[[2]*Node{a, b}] {
+			return ""
+		}
+		visited[[2]*Node{a, b}] = true
 	}
 	if a == nil || b == nil || a.Kind != b.Kind {
 		return fmt.Sprintf("%s: %s vs %s", path, short(a), short(b))
@@ -885,7 +891,9 @@ func diff(a, b *Node, o Options, path string, depth int) string {
 				if a.Kind == Object && i < len(a.Class.Fields) {
 					p = path + "." + a.Class.Fields[i]
 				}
-				return diff(a.Elems[i], b.Elems[i], o, p, depth+1)
+				if d := diff(a.Elems[i], b.Elems[i], o, p, depth+1, visited); d != "" {
+					return d
+				}
 			}
 		}
 	case Map:
@@ -898,7 +906,9 @@ func diff(a, b *Node, o Options, path string, depth int) string {
 				if EqualOpt(a.Elems[i], b.Elems[j], o) {
 					found = true
 					if !EqualOpt(a.Elems[i+1], b.Elems[j+1], o) {
-						return diff(a.Elems[i+1], b.Elems[j+1], o, path+"{"+short(a.Elems[i])+"}", depth+1)
+						if d := diff(a.Elems[i+1], b.Elems[j+1], o, path+"{"+short(a.Elems[i])+"}", depth+1, visited); d != "" {
+							return d
+						}
 					}
 				}
 			}
@@ -906,6 +916,9 @@ func diff(a, b *Node, o Options, path string, depth int) string {
 				return fmt.Sprintf("%s: key %s missing on the other side", path, short(a.Elems[i]))
 			}
 		}
+	}
+	if a.Kind == List || a.Kind == Map || a.Kind == Object {
+		return ""
 	}
 	extra := ""
 	if a.Kind == Double && a.Prec > 0 && a.BigF != nil && b.BigF != nil && !a.BigF.IsInf() && !b.BigF.IsInf() {
